@@ -20,7 +20,9 @@ RULE = (
     "input' warning promoted to an error), or inside a make_jvp operator object that was built outside every differentiation and is "
     "called at the innermost level (stored_jvp), at nesting depth d, and is caught inside enclosing level e - whose function then "
     "continues with further nested differentiations and must still return the closed-form value - or not at all; "
-    "closure_fault (a VJP closure fails part-way through its backward pass on a graph with fan-out and is then called again); "
+    "closure_fault (a VJP closure fails part-way through its backward pass on a graph with fan-out and is then called again; "
+    "closure_fault_ckpt: the failure happens while the rules of a checkpointed two-argument block are being built); mutate_result (the "
+    "caller updates returned gradients / Jacobians / tangents in place); "
     "reentrant (a derivative rule that itself calls grad; recursion through grad); canary. After every step: a table of 25 "
     "canary differentiations is bitwise equal to the table computed by a fresh subprocess at the start of the run; registries "
     "(primitive_vjps, primitive_jvps, notrace_primitives, Box.type_mappings, VSpace.mappings) have the same keys and identities; "
@@ -165,7 +167,8 @@ def body(max_steps, c):
 
     try:
         for step in range(n_steps):
-            kind = c.choice(["ok_call", "failing_call", "failing_call", "closure_fault", "closure_reuse", "reentrant", "canary"])
+            kind = c.choice(["ok_call", "failing_call", "failing_call", "closure_fault", "closure_reuse", "reentrant", "canary", "closure_fault_ckpt",
+                             "mutate_result"])
             x0 = c.choice([0.7, 1.1, 1.6])
             if kind == "canary":
                 history.append(["canary"])
@@ -223,6 +226,55 @@ def body(max_steps, c):
                 if r1.shape != r1b.shape or not onp.array_equal(r1, r1b, equal_nan=True):
                     return fail("history_dependence", f"step {step}: VJP function of {tname} {inst.call.desc} gives a different answer when called again with "
                                 "the same cotangent", bucket("closure_reuse"), sample=sample)
+                continue
+            if kind == "mutate_result":
+                # the caller owns what a differentiation returns: it updates the results in place (an optimiser step, masking, ...);
+                # nothing computed later may notice (shapes and dtypes are those the canary table uses)
+                history.append(["mutate_result", x0])
+                x3 = onp.array([x0, -1.2, 0.7])
+                A2 = onp.array([[0.5, -1.0, 2.0], [1.5, 0.25, -0.75]]) * x0
+                outs = [autograd.elementwise_grad(lambda t: t + 1.0)(x3), autograd.elementwise_grad(lambda t: anp.reshape(t, (3, 2)).T)(A2),
+                        autograd.grad(lambda t: anp.sum(t))(x3), autograd.jacobian(lambda t: t - 2.0)(x3),
+                        autograd.make_jvp(lambda t: t * 1.0)(x3)(onp.ones(3))[1], autograd.grad(lambda t: t * 1.0)(x0),
+                        autograd.make_vjp(lambda t: anp.dot(A2, t))(x3)[0](onp.ones(2)), autograd.hessian(lambda t: anp.sum(t * t))(x3),
+                        autograd.grad(lambda d: anp.sum(d["a"]) + d["b"][0])({"a": x3, "b": (x0, 1.0)})["a"]]
+                for o in outs:
+                    if isinstance(o, onp.ndarray) and o.flags.writeable and o.size:
+                        o *= -0.1
+                        o[...] = o - 3.0
+                continue
+            if kind == "closure_fault_ckpt":
+                # a VJP function whose backward pass re-evaluates a checkpointed two-argument block; the block fails transiently during the
+                # k-th re-evaluation (i.e. while the rule of the k-th differentiated argument is being built); then the same function again
+                history.append(["closure_fault_ckpt", x0])
+                xs = onp.array([x0, 0.5, -0.3])
+
+                def inner(a, b):
+                    return P["fwd_boom"](a * b) + a
+
+                ck = autograd.checkpoint(inner)
+
+                def f(t):
+                    a = anp.sin(t)
+                    b = anp.exp(0.3 * t)
+                    return anp.sum(ck(a, b) * a + b)
+
+                state["boom_at"] = None
+                vjp, y = autograd.make_vjp(f)(xs)
+                fresh = onp.asarray(autograd.grad(f)(xs))
+                for k_ in (c.int(1, 2), c.int(1, 2)):
+                    state["count"], state["boom_at"] = 0, k_
+                    try:
+                        vjp(1.0)  # (if the block is not re-evaluated during the backward pass, nothing fails here)
+                    except Fault:
+                        pass
+                    finally:
+                        state["boom_at"] = None
+                again = onp.asarray(vjp(1.0))
+                if again.shape != fresh.shape or not onp.array_equal(again, fresh):
+                    return fail("history_dependence", f"step {step}: a VJP function called after failed calls of itself (checkpointed block failing while its rules were "
+                                f"being built) gives {again.tolist()}, a fresh one gives {fresh.tolist()}", bucket("closure_after_fault_ckpt"), sample=sample)
+                saw_deep_caught = True
                 continue
             if kind == "closure_fault":
                 history.append(["closure_fault", x0])
